@@ -73,7 +73,8 @@ fn skeletons(width: usize, depth: usize) -> Vec<Vec<Item>> {
 pub struct ScopeProg {
     pub source_fn: String,
     /// per stop line: (line offset inside the fn text, visible bindings innermost-last (name, k), later/sibling names that must not show)
-    pub stops: Vec<(u32, Vec<(&'static str, u64)>)>,
+    /// third field: the binding whose declaration line this stop is (not initialized yet)
+    pub stops: Vec<(u32, Vec<(&'static str, u64)>, Option<(&'static str, u64)>)>,
     pub call_line_scope: Vec<(&'static str, u64)>,
     pub call_line: u32,
     pub all_decls: Vec<(&'static str, u64)>,
@@ -85,7 +86,7 @@ fn render(items: &[Item]) -> ScopeProg {
     let mut k = 100u64;
     let mut stops = vec![];
     let mut all = vec![];
-    fn emit(items: &[Item], indent: usize, text: &mut String, line: &mut u32, k: &mut u64, scope: &mut Vec<(&'static str, u64)>, stops: &mut Vec<(u32, Vec<(&'static str, u64)>)>, all: &mut Vec<(&'static str, u64)>) {
+    fn emit(items: &[Item], indent: usize, text: &mut String, line: &mut u32, k: &mut u64, scope: &mut Vec<(&'static str, u64)>, stops: &mut Vec<(u32, Vec<(&'static str, u64)>, Option<(&'static str, u64)>)>, all: &mut Vec<(&'static str, u64)>) {
         let pad = " ".repeat(indent);
         let mark = scope.len();
         for it in items {
@@ -94,11 +95,14 @@ fn render(items: &[Item]) -> ScopeProg {
                     *k += 1;
                     text.push_str(&format!("{pad}let {n} = n * 1000 + {};\n", *k));
                     *line += 1;
+                    // the declaration line itself is a stop position too: the new binding is not
+                    // alive yet, everything declared before (and not closed) is
+                    stops.push((*line, scope.clone(), Some((*n, *k))));
                     scope.push((n, *k));
                     all.push((*n, *k));
                     text.push_str(&format!("{pad}acc = acc.wrapping_add({n});\n"));
                     *line += 1;
-                    stops.push((*line, scope.clone()));
+                    stops.push((*line, scope.clone(), None));
                 }
                 Item::Nest(b) => {
                     text.push_str(&format!("{pad}{{\n"));
@@ -121,7 +125,7 @@ fn render(items: &[Item]) -> ScopeProg {
         emit_top(items, pad, &mut text, &mut line, &mut k, &mut sc, &mut stops, &mut all);
         scope = sc;
     }
-    fn emit_top(items: &[Item], indent: usize, text: &mut String, line: &mut u32, k: &mut u64, scope: &mut Vec<(&'static str, u64)>, stops: &mut Vec<(u32, Vec<(&'static str, u64)>)>, all: &mut Vec<(&'static str, u64)>) {
+    fn emit_top(items: &[Item], indent: usize, text: &mut String, line: &mut u32, k: &mut u64, scope: &mut Vec<(&'static str, u64)>, stops: &mut Vec<(u32, Vec<(&'static str, u64)>, Option<(&'static str, u64)>)>, all: &mut Vec<(&'static str, u64)>) {
         let pad = " ".repeat(indent);
         for it in items {
             match it {
@@ -129,11 +133,14 @@ fn render(items: &[Item]) -> ScopeProg {
                     *k += 1;
                     text.push_str(&format!("{pad}let {n} = n * 1000 + {};\n", *k));
                     *line += 1;
+                    // the declaration line itself is a stop position too: the new binding is not
+                    // alive yet, everything declared before (and not closed) is
+                    stops.push((*line, scope.clone(), Some((*n, *k))));
                     scope.push((n, *k));
                     all.push((*n, *k));
                     text.push_str(&format!("{pad}acc = acc.wrapping_add({n});\n"));
                     *line += 1;
-                    stops.push((*line, scope.clone()));
+                    stops.push((*line, scope.clone(), None));
                 }
                 Item::Nest(b) => {
                     text.push_str(&format!("{pad}{{\n"));
@@ -206,7 +213,7 @@ fn run_scope(i: usize, items: &[Item]) -> Result<Value, String> {
     let p = prepare(vec![built])?.remove(0);
     let file = p.built.program.src_file.clone();
     let mut cmds = vec![];
-    for (l, _) in &sp.stops {
+    for (l, _, _) in &sp.stops {
         cmds.push(json!({"op":"break_line","file":file,"line":fn_first_line + l - 1}));
     }
     cmds.push(json!({"op":"start"}));
@@ -248,6 +255,9 @@ fn run_scope(i: usize, items: &[Item]) -> Result<Value, String> {
             checks += 1;
             let act_n = n + k as u64;
             let (scope, line): (&Vec<(&str, u64)>, u32) = if k == 0 { (&sp.stops[*si].1, sp.stops[*si].0) } else { (&sp.call_line_scope, sp.call_line) };
+            // the binding being declared on this very line (frame 0 only): it may show up with
+            // whatever the stack slot holds, and its name may already resolve to it
+            let pending: Option<&str> = if k == 0 { sp.stops[*si].2.map(|p| p.0) } else { None };
             let ctx = format!("[{name}] activation n={act_n} (frame {k}) at fn line {line}, skeleton:\n{}", sp.source_fn);
             // shown locals
             let shown: Vec<(String, Option<u64>)> = fr["locals"]["Ok"].as_array().map(|a| a.iter().map(|e| (e["name"].as_str().unwrap_or("?").to_string(), scalar_u64(&e["v"]))).collect()).unwrap_or_default();
@@ -258,6 +268,9 @@ fn run_scope(i: usize, items: &[Item]) -> Result<Value, String> {
             let in_scope: Vec<(String, u64)> = scope.iter().map(|(nm, kk)| (nm.to_string(), act_n * 1000 + kk)).collect();
             // innermost live binding per name
             for nm in ["x", "y"] {
+                if Some(nm) == pending {
+                    continue;
+                }
                 if let Some((_, val)) = in_scope.iter().rev().find(|(n2, _)| n2 == nm) {
                     if !shown.iter().any(|(sn, sv)| sn == nm && *sv == Some(*val)) {
                         findings.push(json!({"sig": format!("C19:locals:innermost-binding-missing-or-wrong{}", if k > 0 { ":outer-frame" } else { "" }), "detail": format!("{ctx}\nlive `{nm}` = {val}, locals shown: {shown:?}")}));
@@ -270,6 +283,9 @@ fn run_scope(i: usize, items: &[Item]) -> Result<Value, String> {
                     continue;
                 }
                 let Some(sv) = sv else { continue };
+                if Some(sn.as_str()) == pending {
+                    continue;
+                }
                 if !in_scope.iter().any(|(n2, v2)| n2 == sn && v2 == sv) {
                     let decl = sp.all_decls.iter().find(|(n2, kk)| n2 == sn && act_n * 1000 + kk == *sv);
                     let kind = match decl {
@@ -281,6 +297,9 @@ fn run_scope(i: usize, items: &[Item]) -> Result<Value, String> {
             }
             // var <name> = innermost live binding
             for nm in ["x", "y"] {
+                if Some(nm) == pending {
+                    continue;
+                }
                 let want = in_scope.iter().rev().find(|(n2, _)| n2 == nm).map(|x| x.1);
                 let got: Vec<Option<u64>> = fr["by_name"][nm]["Ok"].as_array().map(|a| a.iter().map(|e| scalar_u64(&e["v"])).collect()).unwrap_or_default();
                 match want {
